@@ -3,6 +3,7 @@ from pat import *
 from expr import fmt, walk
 from harness import Skip
 import ppa as P
+from rules.common import adapters_in
 from rules.ppa_reviewed import REVIEWED
 from rules.c08 import run_ppa
 
@@ -186,6 +187,47 @@ def guard_rules(ctx):
         ctx.require_try_call(rule, f, Call("encode_as_bitvector"), desc="encode_as_bitvector(..)?")
     except Skip:
         pass
+    # --- L1BoundSum: the norm handed to the range check is the exact integer sum of all entries
+    try:
+        f = ctx.fn(rule, name="encode_measurement", trait="Type", self_adt=T + "l1boundsum::L1BoundSum")
+        g = ctx.guards(f)
+        b = f.body
+        K = "%s:%s:" % (rule, f.id)
+        item = Field(Call("next"), name="0", variant="Some")
+        adds = [(bi, c) for bi, t in b.calls() for c in [g.eb.call_expr(t)] if t.callee.name == "checked_add" and g.loop_of(bi) is not None]
+        encs = [(bi, c) for bi, t in b.calls() for c in [g.eb.call_expr(t)] if t.callee.name == "encode_range_checked_int"]
+        fin = [x for x in encs if g.loop_of(x[0]) is None]
+        per = [x for x in encs if g.loop_of(x[0]) is not None]
+        good = len(adds) == 1 and len(fin) == 1 and len(per) == 1
+        why = "expected one checked_add in the loop, one per-entry range check and one final range check"
+        if good:
+            acc = adds[0][1][2][0]
+            lp = g.loop_of(adds[0][0])
+            latches = [t for (t, hh) in b.back_edges() if hh == lp[0]]
+
+            class _E:
+                block = adds[0][0]
+            src = ctx.loop_source(f, _E)
+            init = g.eb.init_expr(acc[1]) if acc[0] == "phi" else None
+            from guards import phi_defs
+            defs = phi_defs(g, acc[1]) if acc[0] == "phi" else []
+            upd = [d for d in defs if Try(Mentions(Call("checked_add", lambda x: x == acc, item)))(d[0]) and d[2] in lp[1]]
+            zero_init = [d for d in defs if Mentions(Call("zero"))(d[0]) or Lit(0)(d[0])]
+            good = item(adds[0][1][2][1]) and src is not None and Arg(2)(src) and not adapters_in(src) and \
+                len(defs) == 2 and len(upd) == 1 and len(zero_init) == 1 and all(b.dominates(upd[0][2], t) for t in latches) and \
+                fin[0][1][2][0] == acc and item(per[0][1][2][0]) and b.dominates(lp[0], fin[0][0])
+            why = "the L1 norm is not `0, then checked_add(entry)?` over every entry, passed unconverted to the final range check"
+        if good:
+            ctx.ok(rule, K + "l1-norm-exact", "norm = integer sum of all entries with checked_add(..)? per entry; encode_range_checked_int(norm, ..)? afterwards", loc=f.loc)
+            ctx.require_try_call(rule, f, Mentions(Call("checked_add")), dominates=False, desc="overflow of the norm -> Err", key=K + "l1-norm-overflow-refused")
+        else:
+            ctx.bad(rule, K + "l1-norm-exact", "L1BoundSum::encode_measurement: %s (a wrapped norm lets out-of-range measurements through)" % why, loc=f.loc)
+    except Skip:
+        pass
+    # --- share count / share length in Prio3's combiner; Prio2's constructor (rules shared with C02 and C19)
+    from rules import c02, c19
+    c02.combine_rules(ctx, "R-C16.G.combine")
+    c19.new_rules(ctx, "R-C16.G.prio2-new")
     # --- Poplar1 / IDPF
     G(ctx, rule, dict(name="shard_with_random", self_adt="vdaf::poplar1::Poplar1", trait=""), "Ne", Len(Arg(3)), Field(Arg(1), "bits"), "Poplar1 shard: len(input) != bits -> Err")
     G(ctx, rule, dict(name="eval", self_adt="idpf::Idpf"), "Gt", Arg(2), Lit(1), "Idpf::eval: agg_id > 1 -> Err")
